@@ -183,9 +183,14 @@ def builtins():
         raise Unsupported('zip of non-concrete sequences')
 
     def _range(p, args, kw):
-        if len(args) != 1 or not isinstance(args[0], IntV):
-            raise Unsupported('range with other than one int argument')
-        return IterV(lambda t: IntV(t), args[0].t, 'range')
+        if len(args) == 1 and isinstance(args[0], IntV):
+            return SeqV(lambda t: IntV(t), args[0].t, 'range')
+        if len(args) == 2 and all(isinstance(a, IntV) for a in args):
+            lo, hi = args[0].t, args[1].t
+            n = p.fresh_int('range.len')       # no if-then-else terms inside sequence lengths (they end up in patterns)
+            p.assume(And(n >= 0, Implies(hi >= lo, n == hi - lo), Implies(hi < lo, n == 0)))
+            return SeqV(lambda t: IntV(lo + t), n, 'range')
+        raise Unsupported('range with a step or non-int arguments')
 
     def _all(p, args, kw):
         (it,) = args
@@ -214,10 +219,14 @@ def builtins():
             return v.fields['__set__'].fn(p, [v], {})
         raise Unsupported('set of %r' % (v,))
 
-    return {'map': FuncV('map', _map), 'set': FuncV('set', _set), 'zip': FuncV('zip', _zip), 'range': FuncV('range', _range),
+    def _bool(p, args, kw):
+        from pyvc.engine import truthy
+        return BoolV(p.truth(args[0]) if args else False)
+
+    return {'bool': FuncV('bool', _bool), 'map': FuncV('map', _map), 'set': FuncV('set', _set), 'zip': FuncV('zip', _zip), 'range': FuncV('range', _range),
             'all': FuncV('all', _all),
             'enumerate': FuncV('enumerate', _enumerate), 'reversed': FuncV('reversed', _reversed),
             'isinstance': FuncV('isinstance', _isinstance), 'len': FuncV('len', _len), 'next': FuncV('next', _next),
             'tuple': FuncV('tuple', _tuple), 'list': FuncV('list', _list),
-            'int': ClassV('int'), 'slice': ClassV('slice'), 'str': ClassV('str'), 'bool': ClassV('bool'),
+            'int': ClassV('int'), 'slice': ClassV('slice'), 'str': ClassV('str'),
             'True': BoolV(True), 'False': BoolV(False), 'None': NONE}
